@@ -271,6 +271,17 @@ pub fn trace(o: &Opts) -> R<()> {
         }
     }
     // every opcode that does not transfer control once, deterministically (the stack effect of each)
+    // families whose catches depend on rare shapes get a fixed share of their own, whatever the random mix does
+    for k in 0..o.num("focus", 90usize) {
+        let prog = match k % 9 {
+            0..=3 => progen::reentry(&mut rng),
+            4 | 5 => progen::spaghetti(&mut rng),
+            6 => progen::code_edges(&mut rng),
+            _ => progen::computed_targets(&mut rng),
+        };
+        extra.push((prog.family, prog.code));
+        extra_limits.push(None);
+    }
     for _ in 0..o.num("long", 0usize) {
         let prog = progen::long_code(&mut rng, 24_576);
         extra.push((prog.family, prog.code));
